@@ -6,6 +6,7 @@ import (
 	"verifharness/checks/c09"
 	"verifharness/checks/c10"
 	"verifharness/checks/c16"
+	"verifharness/checks/c17"
 	"verifharness/checks/c18"
 )
 
@@ -15,6 +16,7 @@ func init() {
 	registry["C09"] = entry{"exploration", c09.Run}
 	registry["C10"] = entry{"fault_enumeration", c10.Run}
 	registry["C16"] = entry{"exploration", c16.Run}
+	registry["C17"] = entry{"fault_enumeration", c17.Run}
 	registry["C18"] = entry{"exploration", c18.Run}
 	registry["C03"] = entry{"model_checking", c18.Run03A}
 }
